@@ -537,7 +537,7 @@ class Episode:
             for i in rejected_pools:
                 p = self.ex.pools[i]
                 now = (p.avail_cpu_pool, p.avail_ram_pool, len(p.active_containers))
-                if now[0] != before[i][0] or abs(now[1] - before[i][1]) > 1e-9 or (now[2] != before[i][2] and not sus_by_pool[i]):
+                if now[0] != before[i][0] or abs(now[1] - before[i][1]) > 1e-9 * max(1.0, abs(before[i][1])) or (now[2] != before[i][2] and not sus_by_pool[i]):
                     self.problem("C03:rejected-batch-changed-ledger", f"pool {i} before {before[i]} after {now}")
             self.ended = "reject"
             return
@@ -632,16 +632,17 @@ class Episode:
         ram_live = sum(F(c.assignment.ram) for c in rp.active_containers) + sum(F(c.assignment.ram) for c in rp.suspending_containers)
         if rp.avail_cpu_pool + cpu_live != rp.max_cpu_pool:
             P("C03:cpu-not-conserved", f"pool {pool}: free {rp.avail_cpu_pool} + live {cpu_live} != capacity {rp.max_cpu_pool}")
-        if abs(F(rp.avail_ram_pool) + ram_live - F(rp.max_ram_pool)) > F(1, 10 ** 6):
+        tol = float(m.tau)
+        if abs(F(rp.avail_ram_pool) + ram_live - F(rp.max_ram_pool)) > m.tau:
             P("C03:ram-not-conserved", f"pool {pool}: free {rp.avail_ram_pool} + live {float(ram_live)} != capacity {rp.max_ram_pool}")
         if rp.avail_cpu_pool < 0:
             P("C03:negative-free-cpu", f"pool {pool}: free cpu {rp.avail_cpu_pool}")
-        if rp.avail_ram_pool < -1e-6 and not self.spec["over"]:
+        if rp.avail_ram_pool < -tol and not self.spec["over"]:
             P("C03:negative-free-ram", f"pool {pool}: free ram {rp.avail_ram_pool} without overcommit")
         # ledger against the model (allocation returned exactly once, in the right tick)
         if rp.avail_cpu_pool != m.free_cpu:
             P("C03:free-cpu-differs", f"pool {pool}: free cpu {rp.avail_cpu_pool}, model {m.free_cpu}")
-        if abs(F(rp.avail_ram_pool) - m.free_ram) > F(1, 10 ** 6):
+        if abs(F(rp.avail_ram_pool) - m.free_ram) > m.tau:
             P("C03:free-ram-differs", f"pool {pool}: free ram {rp.avail_ram_pool}, model {float(m.free_ram)}")
         # C09 container lists / outcomes
         if ract != mids(m.active):
@@ -679,13 +680,13 @@ class Episode:
                 P("C04:usage-above-allocation", f"{c.container_id} uses {u} of {c.assignment.ram} GB after the tick")
             if mc is not None and mc.where == "active" and abs(u - float(mc.usage)) > 1e-9 * max(1.0, u):
                 P("C04:usage-differs", f"{c.container_id} uses {u} GB, model {float(mc.usage)}")
-        if usage_sum > rp.max_ram_pool + 1e-6:
+        if usage_sum > rp.max_ram_pool + tol:
             P("C04:pool-usage-above-capacity", f"pool {pool}: containers use {usage_sum} of {rp.max_ram_pool} GB")
         rep = rp.get_consumed_ram_gb()
-        if abs(rep - usage_sum) > 1e-6:
+        if abs(rep - usage_sum) > tol:
             P("C04:reported-usage-wrong", f"pool {pool}: reports {rep} GB, running containers use {usage_sum} GB")
         if not rp.active_containers and rep != 0:
-            if abs(rep) > 1e-6:
+            if abs(rep) > tol:
                 P("C04:reported-usage-wrong", f"pool {pool}: empty pool reports {rep} GB")
         # C09: a container whose operators have all reached a final state has ended: it must have reported in this tick
         for c in rp.active_containers:
